@@ -1072,6 +1072,19 @@ fn build_corpus(seed: u64) -> Corpus {
 			mmr_index: 77,
 		};
 		let o = grin_api::Output::new(&rnd_commit(&mut p), 55, 66);
+		for (label, proof) in [
+			("empty proof", "".to_string()),
+			("one byte proof", "0a".to_string()),
+			("674 byte proof", "ab".repeat(674)),
+			("675 byte proof", "ab".repeat(675)),
+			("676 byte proof", "ab".repeat(676)),
+			("5000 byte proof", "cd".repeat(5000)),
+			("odd number of digits", "abc".to_string()),
+		] {
+			let mut v = op.clone();
+			v.proof = Some(proof);
+			b.add(D_API_OUTPUT_PRINTABLE, 0, u32::MAX, true, label, &RawBytes(serde_json::to_value(&v).expect("json").to_string().into_bytes()));
+		}
 		for (dec, doc) in [
 			(D_API_OUTPUT_PRINTABLE, serde_json::to_value(&op).expect("json")),
 			(D_API_OUTPUT, serde_json::to_value(&o).expect("json")),
@@ -2727,9 +2740,15 @@ fn exec_case(w: &WCtx, c: &Case, m: &mut Mon) {
 		D_CODEC => codec_case(m, w, c),
 		D_API_OUTPUT_PRINTABLE => {
 			let s = String::from_utf8_lossy(b).to_string();
+			let mut decoded = None;
 			m.stage("serde_json::from_str::<api::OutputPrintable>", true, || {
-				serde_json::from_str::<grin_api::OutputPrintable>(&s).map(|_| ()).map_err(|_| "deserialize".to_string())
+				serde_json::from_str::<grin_api::OutputPrintable>(&s).map(|v| decoded = Some(v)).map_err(|_| "deserialize".to_string())
 			});
+			// the stateless accessors a client runs on the decoded document
+			if let Some(v) = decoded {
+				m.stage("api::OutputPrintable::range_proof", false, || v.range_proof().map(|_| ()).map_err(|_| "range_proof".to_string()));
+				m.stage("api::OutputPrintable::commit", false, || v.commit().map(|_| ()).map_err(|_| "commit".to_string()));
+			}
 		}
 		D_API_OUTPUT => {
 			let s = String::from_utf8_lossy(b).to_string();
